@@ -135,7 +135,7 @@ def run(F, R, tier):
     pm = R.anchor(KEYM + "Privilege::is_match", "C02.R1")
     n_cmp = 0
     if pm:
-        bodies = [pm] + [f for f in F.fns.values() if f.get("parent") == pm["id"]]
+        bodies = [pm] + descendants(F, pm["id"])
         for fn in bodies:
             B = mir.Body(fn, F)
             R.touched(fn["id"])
@@ -300,7 +300,7 @@ def run(F, R, tier):
             R.check(used or guarded, "C02.R3", R.key("C02.R3", fa_["id"], "keyed-insert"), q.where(B, bi),
                     "keyed insert is preceded by a contains_key test on every path (no silent overwrite)",
                     "keyed insert of host-supplied names discards the displaced value without a duplicate check")
-        R.floor("C02.R3", n, 4, "name-keyed flattening sites in from_authorization_item")
+        R.floor("C02.R3", n, 2, "name-keyed flattening sites in from_authorization_item")
         if tier == "thorough":
             hs = B.calls_named("HashSet::insert")
             pk, ik = [], []
@@ -322,7 +322,38 @@ def run(F, R, tier):
                 R.check(ok, "C02.R6", R.key("C02.R6", fa_["id"], "assignment-insert"), q.where(B, c[0]),
                         "an identity is added to a privilege's assignments only if privilege_dict and identity_dict contain the names",
                         "assignment insert not guarded by both 'privilege defined' and 'identity defined'")
-            R.floor("C02.R6", len(hs), 1, "assignment insert sites")
+            # bulk spelling: assignments.extend(identities.iter().filter(|n| identity_dict.contains_key(n)).cloned())
+            ext = B.calls_named("HashSet::extend", "Extend::extend", "iter::Extend::extend")
+            for c in ext:
+                t_ = c[3]
+                filt_ok = False
+                # walk the iterator expression handed to extend() back through its adaptors
+                cur, hops = t_["args"][1] if len(t_["args"]) > 1 else None, 0
+                while cur is not None and cur["k"] in ("copy", "move") and hops < 8:
+                    hops += 1
+                    d = B.single_def(cur["p"]["l"])
+                    if not d or d[2] != "call":
+                        break
+                    w_, r_ = mir.callee_of(d[3])
+                    short_ = q.base_name(w_ or "").rsplit("::", 1)[-1]
+                    if short_ == "filter" and len(d[3]["args"]) == 2:
+                        for o in B.origins(d[3]["args"][1]):
+                            cf_ = F.fns.get(o[1]) if o[0] == "agg" else None
+                            if cf_ is None:
+                                continue
+                            Bc = mir.Body(cf_, F)
+                            ro = Bc.origins({"l": 0, "p": []})
+                            if ro and all(x[0] == "call" and q.ends(x[1], "HashMap::contains_key") for x in ro):
+                                recv = set()
+                                for x in ro:
+                                    recv |= {y[1] for y in Bc.origins(Bc.blocks[x[2]]["term"]["args"][0]) if y[0] == "param"}
+                                filt_ok = recv == {"identity_dict"}
+                    cur = d[3]["args"][0] if d[3]["args"] else None
+                ok = bool(pk) and filt_ok and B.path([0], [c[0]], cut_edges=pk) is None
+                R.check(ok, "C02.R6", R.key("C02.R6", fa_["id"], "assignment-extend"), q.where(B, c[0]),
+                        "identities are added in bulk only under 'privilege defined', filtered by identity_dict.contains_key",
+                        "bulk assignment insert not guarded by 'privilege defined' / not filtered by 'identity defined'")
+            R.floor("C02.R6", len(hs) + len(ext), 1, "assignment insert sites")
 
     # ------------------------------------------------------------------ R5
     ident = F.adts.get(KEYM + "Identity")
@@ -337,11 +368,17 @@ def run(F, R, tier):
                        "Identity has attribute `%s` with no entry in the reviewed pairing table: it is parsed but its matching is unreviewed" % f)
                 continue
             found = False
-            for bi, w, r, t in B.calls:
+            from lib import contracts as _ct
+            fam_calls = []
+            for f_ in [im] + descendants(F, im["id"]):
+                Bf = B if f_ is im else mir.Body(f_, F)
+                fam_calls += [(Bf, c) for c in Bf.calls]
+            for Bf, (bi, w, r, t) in fam_calls:
                 name = q.base_name(r or w or "").rsplit("::", 1)[-1]
                 if name not in ("eq", "ne") or len(t["args"]) != 2:
                     continue
-                oa, ob = B.origins(t["args"][0]), B.origins(t["args"][1])
+                # a comparison inside a closure (`groups.iter().any(|g| g == name)`) is read in the terms of is_match itself
+                oa, ob = (_ct.parent_terms(F, Bf, Bf.origins(t["args"][i])) for i in (0, 1))
                 sides = [oa, ob]
                 self_side = any(any(o[0] == "param" and o[1] == "self" and o[2][:1] == (f,) for o in s) for s in sides)
                 claim_side = any(any(o[0] == "param" and o[1] == "claims" and o[2][:1] == (paired,) for o in s) for s in sides)
